@@ -100,7 +100,11 @@ func (w *World) ledgerProbes(full bool, withIGP bool) []Probe {
 			memos = append(memos, memoM{fmt.Sprintf("%s/fee%d", f, fi), Memo(f, fees), &f, fees})
 		}
 	}
-	memos = append(memos, memoM{"nomemo", "", nil, nil}, memoM{"malformed", "{", nil, nil}, memoM{"emptyorbiter", `{"orbiter":{}}`, nil, nil})
+	memos = append(memos, memoM{"nomemo", "", nil, nil}, memoM{"malformed", "{", nil, nil}, memoM{"emptyorbiter", `{"orbiter":{}}`, nil, nil},
+		// memos on which third-party decoders reached from the adapter PANIC (C14, hunters H1-H3): whatever the recovery does, the
+		// packet is addressed to the orbiter — it must be refused, not handed to the plain ICS-20 flow (seed C14g)
+		memoM{"decoder-panics(forwarding)", `{"orbiter":{"forwarding":{"protocol_id":"PROTOCOL_INTERNAL","attributes":{"@type":"/cosmos.crypto.secp256r1.PubKey","key":0}}}}`, nil, nil},
+		memoM{"decoder-panics(action)", MemoJSON(w.FwdInternal(w.Bob), `{"id":"ACTION_FEE","attributes":{"@type":"/cosmos.crypto.secp256r1.PubKey","key":0}}`), nil, nil})
 	mk := func(r rcvEnc, m memoM, ch, base, amt string, native bool) Probe {
 		p := NewPkt(ch, base, amt, r.S, m.memo)
 		if native {
